@@ -25,6 +25,26 @@ pub(crate) struct Endpoint {
 
 impl Endpoint {
     pub fn new(config: EndpointConfig, socket: std::net::UdpSocket) -> Result<Self> {
+        #[cfg(bmwill_anemo_verif)]
+        if let Some(transport) = crate::verif::take_next_transport() {
+            // Simulator transport seam: same construction as below, but on an abstract socket,
+            // an injected quinn runtime and a seeded quinn rng.
+            drop(socket);
+            let mut endpoint_config = config.quinn_endpoint_config();
+            endpoint_config.rng_seed(Some(transport.rng_seed));
+            let local_addr = transport.socket.local_addr()?.pipe(RwLock::new);
+            let inner = quinn::Endpoint::new_with_abstract_socket(
+                endpoint_config,
+                Some(config.server_config().clone()),
+                transport.socket,
+                transport.runtime,
+            )?;
+            return Ok(Self {
+                inner,
+                local_addr,
+                config,
+            });
+        }
         let local_addr = socket.local_addr()?.pipe(RwLock::new);
         let server_config = config.server_config().clone();
         let endpoint = quinn::Endpoint::new(
